@@ -70,8 +70,10 @@ CHECKS = {
         text='Exactly one action call and one push of its result per reduction; argument provenance (rule of the production, '
              'lexer, the very span pushed on the span stack, the drained child values, a clone of the parameter); the '
              'hand-duplicated reduce code of driver and replay is compared with each other after replacing stacks by role '
-             'symbols; generic-tree mapping order.',
-        note='The span VALUES (e.g. zero-length for an empty production) are NOT decided. Trusted: ' + TB,
+             'symbols; generic-tree mapping order; on a shift the span pushed is that of the lexeme pushed; the span handed to '
+             'an action is either (start of the first popped entry, end of the last entry) or zero-length.',
+        note='The span SHAPE is decided (R8.7: an empty production gets a zero-length span - found and fixed a defect, /repo '
+             '26c2db3); that each span-stack entry holds what its symbol derived is NOT decided. Trusted: ' + TB,
         technique='sibling agreement on canonicalised symbolic terms + exactly-once path counting in MIR',
         ref='§4 C08'),
     'C09': dict(
